@@ -758,3 +758,36 @@ where
     }
     io.out
 }
+
+/// The crate's Jacobi eigenvalue routine (feature `linalg`) over dual entries. kind
+/// `jac;<n>;<max_iter>`: inputs are the upper triangle A{i}{j} (i <= j) of a symmetric matrix;
+/// outputs the eigenvalues l{i} and the eigenvector matrix V{i}{j} as returned.
+pub fn run_jac<F: Fl, Sh: Shape<F>>(kind: &str, pres: u64) -> CaseOut
+where
+    Sh::N: Copy,
+{
+    use ndarray::Array2;
+    use num_dual::linalg::jacobi_eigenvalue;
+    let parts: Vec<&str> = kind.split(';').collect();
+    let n: usize = parts[1].parse().unwrap();
+    let iters: usize = parts[2].parse().unwrap();
+    let mut io = Io::<F>::new(pres);
+    let mut a = Array2::<Sh::N>::from_elem((n, n), Sh::N::from(F::lit(0.0)));
+    for i in 0..n {
+        for j in i..n {
+            let e = io.input::<Sh>(&format!("A{i}{j}"));
+            a[(i, j)] = e;
+            a[(j, i)] = e;
+        }
+    }
+    let (l, v) = jacobi_eigenvalue::<Sh::N, F>(a, iters);
+    for i in 0..n {
+        io.output::<Sh>(&format!("l{i}"), &l[i]);
+    }
+    for i in 0..n {
+        for j in 0..n {
+            io.output::<Sh>(&format!("V{i}{j}"), &v[(i, j)]);
+        }
+    }
+    io.out
+}
